@@ -114,6 +114,9 @@ func (r *flowRun) teardown(srv mpx.Server, eps []*endpoint) {
 	if !r.plan.Faulty {
 		// no connection may have been closed by anything the channels did
 		for _, p := range simnet.Cur().Pairs() {
+			if p.Tag == "raw" {
+				continue
+			}
 			if p.C.Dead() || p.S.Dead() {
 				simrt.Fail("C06-conn-closed", "connection %d was closed before the harness closed it (client end dead=%v, server end dead=%v): ending channels must not affect the connection", p.ID, p.C.Dead(), p.S.Dead())
 			}
@@ -338,12 +341,28 @@ func runFlowX(t *testing.T, seed uint64, p *FlowPlan, o RunOpts, prop string, se
 			r.panicsAtTeardown = len(res.Panics)
 		}
 		for _, l := range r.log.errors[:min(r.errorsAtTeardown, len(r.log.errors))] {
+			if r.hostile && !containsAny(l, "panic", "Panic") {
+				rep.count("probe:errors_logged_for_hostile_conns", 1)
+				continue // errors on the hostile peers' own connections are the contained effect
+			}
 			rep.violate("C06-library-error", "the library logged an error on a healthy run: %s", trunc(l, 300))
 			break
 		}
 		for _, pn := range res.Panics[:min(r.panicsAtTeardown, len(res.Panics))] {
+			if r.hostile && !containsAny(pn, "UNRECOVERED") {
+				rep.count("probe:recovered_panics_on_hostile_conns", 1)
+				continue
+			}
 			rep.violate("C06-library-panic", "the library panicked on a healthy run: %s", trunc(pn, 600))
 			break
+		}
+		if r.hostile {
+			for _, pn := range res.Panics {
+				if containsAny(pn, "UNRECOVERED") {
+					rep.violate("C11-process-crash", "a panic escaped every recover (the process would have died): %s", trunc(pn, 900))
+					break
+				}
+			}
 		}
 	}
 	// statistics / probes
